@@ -30,7 +30,7 @@ LEVEL = "exploration"
 RULE = (
     "case = (operations on 2..16 threads sharing one cold XmlContext and shared parser/serializer instances, schedule). Schedules: "
     "complete enumeration of all interleavings with <= 3 pre-emptions placed at the yield points of one conflict group at a time "
-    "(type index, metadata cache, namespace memo, prefix map) for ordered pairs of operations (quick: the lookup-heavy pairs; "
+    "(type index, metadata cache, namespace memo, prefix map, other stored state of context/metadata, parser configuration) for ordered pairs of operations (quick: the lookup-heavy pairs; "
     "thorough: all pairs), PCT-style random schedules for 3-8 threads, and uncontrolled 16-thread stress. Non-trivial = at least one "
     "pre-emption was taken (or >= 3 threads ran); distinct = distinct interleaving signatures (order in which threads passed yield points) per operation tuple."
 )
@@ -63,9 +63,17 @@ OPS = {
     "serialize-mix-lxml": ("serialize", "mix", "lxml", False),
     "parse-mix": ("parse", "mix", "Mix", "native", False),
     "encode-mix": ("encode", "mix", False),
+    # candidate trials of a union-of-classes field (strict) next to lenient conversions on the same parser/decoder instance
+    "parse-union": ("parse", "pet-dog", "Pet", "native", False),
+    "parse-union-lenient": ("parse", "pet-cat-bad-tag", "Pet", "native", False),
+    "parse-lenient": ("parse", "nums-bad", "Nums", "native", False),
+    "decode-union": ("decode", "pet-dog", "Pet", False),
+    "decode-union-lenient": ("decode", "pet-cat-bad-tag", "Pet", False),
+    "decode-lenient": ("decode", "nums-bad", "Nums", False),
 }
 LOOKUP_HEAVY = ["parse-root-lookup", "parse-xsi-type", "wildcard-strict-lookup", "decode-no-class", "parse-xsi-list-no-class", "serialize-derived", "wildcard-memo-1", "import-module"]
 STATE_OPS = ["serialize-mix", "parse-mix", "wildcard-memo-1", "wildcard-memo-2", "encode-mix", "serialize-mix-lxml"]  # first use of the same metadata on two threads
+CONFIG_OPS = ["parse-union", "parse-lenient", "decode-union", "decode-lenient", "parse-union-lenient", "decode-union-lenient"]  # shared parser/decoder configuration
 GROUPS = ["xsi", "cache", "memo", "nsmap", "state"]
 
 
@@ -215,6 +223,7 @@ def stress(ctx, rng, exp, n_threads=16, rounds=3):
 
 def replay(witness, ctx):
     c14.install_hooks(ctx)
+    c14.thread_safe_warnings()
     exp = {n: expected(n) for n in list(OPS) + ["import-module"]}
     if witness.get("fn") == "controlled":
         a, b = witness["ops"]
@@ -248,6 +257,7 @@ def hash_key(w, seed):
 
 def run_shard(ctx):
     c14.install_hooks(ctx)
+    c14.thread_safe_warnings()
     c14.FIND_TYPES_SAMPLE[0] = 5
     sched.install()
     rng = ctx.rng
@@ -261,6 +271,8 @@ def run_shard(ctx):
     work = [(a, b, g) for (a, b) in pairs for g in (GROUPS[:4] if ctx.quick() else GROUPS)]
     state_ops = STATE_OPS[:4] if ctx.quick() else STATE_OPS
     work += [(a, b, g) for (a, b) in itertools.product(state_ops, repeat=2) for g in ("state", "memo")]
+    config_ops = CONFIG_OPS[:4] if ctx.quick() else CONFIG_OPS
+    work += [(a, b, g) for (a, b) in itertools.product(config_ops, repeat=2) for g in ("config", "cache")]
     rng.shuffle(work)  # balance the expensive 'xsi' items over the shards (same order in every shard: seeded identically below)
     work = sorted(work, key=lambda w: hash_key(w, ctx.seed))
     for i, (a, b, g) in enumerate(work):
